@@ -80,6 +80,14 @@ def fold(prog, f, stmts, env):
                 return NAN
             if d in ("numpy.pi", "math.pi"):
                 return math.pi
+            # numpy.finfo(float).eps and friends (binary64)
+            if isinstance(e.value, ast.Call) and prog.dotted(f.module, e.value.func) == "numpy.finfo" and len(e.value.args) == 1 \
+                    and dump(e.value.args[0]) in ("float", "numpy.float64", "numpy.double", "'float64'", "'d'"):
+                import sys as _sys
+                tab = {"eps": _sys.float_info.epsilon, "tiny": _sys.float_info.min, "max": _sys.float_info.max, "min": -_sys.float_info.max,
+                       "smallest_normal": _sys.float_info.min, "epsneg": _sys.float_info.epsilon / 2}
+                if e.attr in tab:
+                    return tab[e.attr]
             raise FoldUnknown("attribute %s" % dump(e))
         if isinstance(e, ast.UnaryOp) and isinstance(e.op, (ast.USub, ast.UAdd)):
             v = ev(e.operand)
@@ -107,6 +115,29 @@ def fold(prog, f, stmts, env):
             if isinstance(e.func, ast.Name) and e.func.id in ("float", "abs"):
                 v = ev(e.args[0])
                 return abs(v) if e.func.id == "abs" else v
+        if isinstance(e, ast.Call) and prog.dotted(f.module, e.func) == "numpy.clip" and len(e.args) + len(e.keywords) == 3:
+            kw = {k.arg: k.value for k in e.keywords}
+            parts = list(e.args) + [kw[k] for k in ("a", "a_min", "a_max") if k in kw][:3 - len(e.args)]
+            if len(parts) == 3:
+                x = ev(parts[0])
+                lo = None if (isinstance(parts[1], ast.Constant) and parts[1].value is None) else ev(parts[1])
+                hi = None if (isinstance(parts[2], ast.Constant) and parts[2].value is None) else ev(parts[2])
+                if x != x:
+                    return x
+                if lo is not None and x < lo:
+                    x = lo
+                if hi is not None and x > hi:
+                    x = hi
+                return x
+        if isinstance(e, ast.Call) and len(e.args) == 2 and not e.keywords and prog.dotted(f.module, e.func) in ("numpy.minimum", "numpy.maximum", "numpy.fmin", "numpy.fmax"):
+            a, b = ev(e.args[0]), ev(e.args[1])
+            d = prog.dotted(f.module, e.func)
+            if a != a or b != b:
+                return (b if a != a else a) if d in ("numpy.fmin", "numpy.fmax") else NAN
+            return min(a, b) if d in ("numpy.minimum", "numpy.fmin") else max(a, b)
+        if isinstance(e, ast.Call) and isinstance(e.func, ast.Name) and e.func.id in ("min", "max") and len(e.args) == 2 and not e.keywords:
+            a, b = ev(e.args[0]), ev(e.args[1])
+            return (min if e.func.id == "min" else max)(a, b)
         if isinstance(e, ast.Call) and len(e.args) == 2 and not e.keywords:
             d = prog.dotted(f.module, e.func)
             tab = {"numpy.divide": _div, "numpy.true_divide": _div, "numpy.multiply": _mul, "numpy.add": lambda a, b: a + b, "numpy.subtract": lambda a, b: a - b}
